@@ -77,17 +77,19 @@ impl Writer {
                 need,
                 block.limit
             );
-            FileStateTracker::set_block_unlocked(block.id as usize);
             let mut sealed = block.clone();
             sealed.used = *cur;
             sealed.mmap.flush()?;
-            let _ = self.reader.append_block_to_chain(&self.col, sealed);
-            debug_print!("[writer] appended sealed block to chain: col={}", self.col);
-            // switch to new block
+            // Allocate the successor before the current block is sealed: if this
+            // fails, nothing has changed and the writer keeps its block.
             // SAFETY: We hold `current_block` and `current_offset` mutexes, so
             // this writer has exclusive ownership of the active block. The
             // allocator's internal lock ensures unique block handout.
             let new_block = unsafe { self.allocator.alloc_block(need) }?;
+            FileStateTracker::set_block_unlocked(block.id as usize);
+            let _ = self.reader.append_block_to_chain(&self.col, sealed);
+            debug_print!("[writer] appended sealed block to chain: col={}", self.col);
+            // switch to new block
             debug_print!(
                 "[writer] switched to new block: col={}, new_block_id={}",
                 self.col,
@@ -231,17 +233,18 @@ impl Writer {
                     need,
                     block.limit
                 );
-                FileStateTracker::set_block_unlocked(block.id as usize);
                 let mut sealed = block.clone();
                 sealed.used = planning_offset;
                 sealed.mmap.flush()?;
-                let _ = self.reader.append_block_to_chain(&self.col, sealed);
 
-                // Allocate new block
+                // Allocate the successor before sealing, so that a failure here
+                // leaves the current block in place
                 // SAFETY: We hold locks, so this writer has exclusive ownership
                 let new_block =
                     unsafe { self.allocator.alloc_block(need.max(DEFAULT_BLOCK_SIZE))? };
                 debug_print!("[batch] allocated new block_id={}", new_block.id);
+                FileStateTracker::set_block_unlocked(block.id as usize);
+                let _ = self.reader.append_block_to_chain(&self.col, sealed);
 
                 revert_info.allocated_block_ids.push(new_block.id);
                 *block = new_block;
